@@ -53,7 +53,8 @@ class Ob:
     """
 
     def __init__(self, oid, kind="sound", clause=None, guard=True, valid=None, observables=None,
-                 fn=None, replayer=None, note=None, phi=None, timeout_ms=60000, extra=None):
+                 fn=None, replayer=None, note=None, phi=None, timeout_ms=60000, extra=None, transform=None):
+        self.transform = transform  # callable(phi list) -> phi list (explicit witnesses for arrays/functions)
         self.id = oid
         self.kind = kind
         self.clause = clause
@@ -206,6 +207,8 @@ def decide(ob, ctx, path):
         res["smt_sample"] = z3.And([guard, z3.Not(clause)]).sexpr()[:600]
     elif ob.kind == "complete":
         valid = formula.to_z3(ob.valid)
+        if ob.transform is not None:
+            phi = ob.transform(list(phi))
         obs_names = {o.decl().name() for o in ob.observables}
         pnames = {t.decl().name() for t in ctx.P.terms.values() if z3.is_expr(t)}
         aux, funcs = formula.aux_of(phi, obs_names, pnames)
@@ -215,7 +218,7 @@ def decide(ob, ctx, path):
         else:
             lost = formula.forall(aux, z3.Not(z3.And(list(phi)))) if phi else z3.BoolVal(False)
             q = base + [valid, lost]
-            verdict, model, _ = formula.solve_shrunk(q, ob.timeout_ms)
+            verdict, model, _ = formula.solve_shrunk(q, ob.timeout_ms, quantified=bool(aux))
             res["status"] = verdict
             res["queries"] = 1
             res["aux"] = len(aux)
